@@ -3,7 +3,7 @@
     by gen/gen_vmguard on every run (the VM cannot be built or run here: the tie is the translator). *)
 From Coq Require Import List Bool String.
 From Coq Require Import ZArith.
-From Verif Require Import VmGuard.Lang VmGuard.Analysis VmGuard.Balance VmGuard.Slots VmGuard.CSide VmGuard.Reviewed Gen.Callbacks Gen.CCallbacks Gen.Slots.
+From Verif Require Import VmGuard.Lang VmGuard.Analysis VmGuard.Balance VmGuard.Slots VmGuard.RecPoint VmGuard.CSide VmGuard.Reviewed Gen.Callbacks Gen.CCallbacks Gen.Slots.
 Import ListNotations.
 
 (** The analyser is sound for every program, callback list and iteration bound (it verifies that
@@ -164,6 +164,36 @@ Theorem C20_callbacks_see_own_context : forall w h q j, 1 <= w ->
   In (q, j) (live (reached (node_cfg w) h)) -> occ (reached (node_cfg w) h) j = Some (Q q).
 Proof. intros w h q j Hw. exact (callbacks_see_own_context _ h q j (node_cfg_wf w Hw)). Qed.
 Print Assumptions C20_callbacks_see_own_context.
+
+(* ------------------------------------------------------------------------------------------
+   The recovery-point discipline: restore operations have nothing to undo in a read-only context. *)
+
+(** Soundness of the recovery-point analysis (VmGuard/RecPoint.v), for every program: on every
+    path through a function of an accepted program, in a context with a positive amount, that
+    leaves with an amount-carrying recovery point of this invocation linked, the transfer
+    (SendBalance, sendBalance(...), ExecuteSystemTx) was reached before. *)
+Theorem C20_recpoint_matches_effect : forall p, recpoints_ok p = true ->
+  forall f body e y o, In (f, body) p -> eP e = true -> eZ e = false ->
+  prun e body (false, false) y o -> fst y = true -> snd y = true.
+Proof. exact recpoint_matches_effect. Qed.
+Print Assumptions C20_recpoint_matches_effect.
+
+(** ... and in a read-only context with a positive amount no path -- in particular none ending
+    with the refusal -- leaves such a recovery point linked at all. *)
+Theorem C20_refusal_leaves_no_recovery_point : forall p, recpoints_ro_ok p = true ->
+  forall f body e y o, In (f, body) p -> (eQ e || eV e) = true -> eP e = true -> eZ e = false ->
+  prun e body (false, false) y o -> fst y = false.
+Proof. exact refusal_leaves_no_recovery_point. Qed.
+Print Assumptions C20_refusal_leaves_no_recovery_point.
+
+(** The obligations over the translated source (createRecoveryPoint(..., amount, ...) = RecPush,
+    clearRecoveryPoint / `lastRecoveryPoint = lastRecoveryPoint.prev` = RecPop), all Go functions. *)
+Theorem C20_recovery_points_checked :
+  recpoints_ok Gen.Callbacks.all_functions = true /\ recpoints_ro_ok Gen.Callbacks.all_functions = true /\
+  has_rec Gen.Callbacks.f_luaCallContract = true /\ has_rec Gen.Callbacks.f_luaSendAmount = true /\
+  has_rec Gen.Callbacks.f_luaDeployContract = true.
+Proof. vm_compute. repeat split. Qed.
+Print Assumptions C20_recovery_points_checked.
 
 (** F13 (known finding, fork version 4 only): the theorems above carry the hypothesis
     [good e] = read-only and (amount >= 0 or fork version >= 5).  Without it the check finds, on
